@@ -358,6 +358,9 @@ def _crc(rep, M, ce, fn, RO, END, file, window_sv, stored, loop):
     w = _nolines(window_sv)
     wtxt = show_sv(window_sv)[:120]
     okw = False
+    if w[0] == "call" and str(w[1]).split(".")[-1] == "islice" and len(w[2]) in (2, 3):
+        # itertools.islice(seq, stop) / islice(seq, start, stop) visits the same items as seq[start:stop]
+        w = ("slice", w[2][0], None if len(w[2]) == 2 else w[2][1], w[2][-1])
     if w[0] == "slice" and w[1] == _nolines(stored) and w[2] in (None, ("c", 0)) and w[3] is not None and w[3][0] == "op" and w[3][1] == "Add":
         a, b = w[3][2], w[3][3]
         if a == ("c", 1):
@@ -365,8 +368,10 @@ def _crc(rep, M, ce, fn, RO, END, file, window_sv, stored, loop):
         okw = b == ("c", 1) and _is_find(a, _nolines(stored), BANG)
     if okw:
         rep.ok("R2", "CRC window", f"every byte from '/' (offset 0) through '!' inclusive: {wtxt}")
-    else:
+    elif w[0] == "slice" and w[1] == _nolines(stored):
         rep.violation("R2", at, "crc-window", "the CRC is not computed over readout[0 : position of '!' + 1]", file, loop.lineno, witness=wtxt)
+    else:
+        rep.undecide(f"R2 the octets the CRC loop visits are not written as a slice of the stored readout: {wtxt}")
     if not isinstance(loop.target, ast.Name):
         raise Undecided("CRC loop target")
     c16 = vars.fresh("crc", 16)
